@@ -17,7 +17,7 @@ Theorem C16_accepts_iff_documented : forall e ps p oc,
 Proof. exact accepts_iff_documented. Qed.
 
 (* where the code and the documentation disagree: the recorded as-is constraints differ from the documented domain at
-   the recorded witness value (candidate findings; 21 rows) *)
+   the recorded witness value (19 rows: documentation gaps and scikit-learn's dict-as-array-like) *)
 Theorem C16_known_disagreements_refuted : forall e p oc w, In (e, p, oc, w) known_asis ->
   effective_sat classes oc w <> in_doc_domain classes e p w.
 Proof. exact known_disagreements_refuted. Qed.
@@ -38,6 +38,12 @@ Proof.
   destruct (check_groups_partition groups d r H) as (_ & H2 & H3 & H4). exact (conj H2 (conj H3 H4)).
 Qed.
 
+(* ... and on group lists with arbitrary entries: accepted exactly when every entry is an integer index (floats, strings,
+   None, nested lists and bools are rejected) and the integer group list is accepted by the statement above *)
+Theorem C16_check_groups_integer_entries : forall (groups : list (list gentry)) (d : nat) r,
+  check_groups_entries groups d = Some r <-> exists gz, groups = map (map GInt) gz /\ check_groups gz d = Some r.
+Proof. exact check_groups_entries_spec. Qed.
+
 (* fit as "validate; then write fitted attributes": a rejection — of the hyper-parameters, the data, the groups, a
    cross-parameter rule or the affinity — leaves no fitted attribute; acceptance writes all of them.  The first
    statement holds for every sequence of checks and writes in which the checks come first. *)
@@ -47,37 +53,55 @@ Theorem C16_rejected_leaves_unfitted :
      if params_ok k && x_ok k && samples_ok k && groups_ok k && cross_ok k && affinity_ok k then (true, rev attrs) else (false, [])).
 Proof. split; [exact (fun s => validate_first_unfitted s [])|exact fit_validate_first_outcome]. Qed.
 
-(* the order of checks and writes of the code as it is (Validation.fit_base / fit_kauri, tied to the code by the
-   correspondence): rejection by the hyper-parameter or data checks writes nothing; rejection by the later rules
-   (feature_mask length, 2*min_samples_leaf <= min_samples_split, Kauri's kernel) leaves n_features_in_ only.
-   Partial: it does not cover the rejections of the next statement. *)
-Theorem C16_asis_rejection_partial :
-  (forall w k, params_ok k && x_ok k && samples_ok k = false -> run (fit_base w k) [] = (false, [])) /\
-  (forall w k, params_ok k = true -> x_ok k = true -> samples_ok k = true -> cross_ok k = false -> run (fit_base w k) [] = (false, ["n_features_in_"])) /\
-  (forall k, fst (run (fit_kauri k) []) = false -> incl (snd (run (fit_kauri k) [])) ["n_features_in_"]).
-Proof. exact (conj fit_base_early_rejection (conj fit_base_cross_rejection fit_kauri_rejection)). Qed.
+(* the order of checks and writes of the code as it is now (Validation.fit_base / fit_sparse / fit_kauri / fit_kernelrim,
+   tied to the code by the correspondence), for every outcome of the individual checks: what a rejected fit has written.
+   DiscriminativeModel.fit and Kauri.fit: nothing, or n_features_in_ alone when the rejection comes after validate_data
+   (affinity, feature_mask, 2*min_samples_leaf <= min_samples_split).  Sparse models: nothing when the hyper-parameters, the
+   data or the sample count are rejected; the bookkeeping attributes n_features_in_ (and groups_) afterwards. *)
+Theorem C16_asis_rejection :
+  (forall w k, fst (run (fit_base w k) []) = false ->
+     snd (run (fit_base w k) []) = (if params_ok k && x_ok k && samples_ok k then ["n_features_in_"] else [])) /\
+  (forall k, fst (run (fit_kauri k) []) = false ->
+     snd (run (fit_kauri k) []) = (if params_ok k && x_ok k && samples_ok k then ["n_features_in_"] else [])) /\
+  (forall w k, fst (run (fit_sparse w k) []) = false ->
+     snd (run (fit_sparse w k) []) =
+       (if params_ok k && x_ok k && samples_ok k then (if groups_ok k then ["n_features_in_"; "groups_"; "n_features_in_"] else ["n_features_in_"]) else [])) /\
+  (* regression statements: each of these rejections left weights / groups_ / the training kernel before the repairs *)
+  run (fit_base ["W_"; "b_"] bad_affinity) [] = (false, ["n_features_in_"]) /\
+  run (fit_sparse ["W_"; "b_"] bad_params) [] = (false, []) /\
+  run (fit_sparse ["W_"; "b_"] bad_samples) [] = (false, []) /\
+  run (fit_kernelrim bad_params) [] = (false, []).
+Proof.
+  exact (conj fit_base_rejection (conj fit_kauri_rejection (conj fit_sparse_rejection fit_asis_repaired))).
+Qed.
 
-(* ... and the as-is order is not "validate first": rejected fits that leave fitted attributes behind
-   (affinity rejected after the weights exist; sparse models store groups_ before validating the hyper-parameters and
-   the number of samples; KernelRIM stores the data and its kernel before validating; bad_affinity / bad_params /
-   bad_samples are the check records with exactly that check failing) *)
+(* KernelRIM, for every outcome of its checks; partial: this order is NOT "validate first" — see the next statement *)
+Theorem C16_asis_kernelrim_partial : forall k, fst (run (fit_kernelrim k) []) = false ->
+  snd (run (fit_kernelrim k) []) =
+    (if params_ok k && x_ok k then
+       (if affinity_ok k then (if samples_ok k then ["n_features_in_"; "training_kernel_"; "input_data_"] else ["training_kernel_"; "input_data_"])
+        else ["input_data_"])
+     else []).
+Proof. exact fit_kernelrim_rejection. Qed.
+
+(* ... KernelRIM stores the training data and its kernel before the sample count is compared with n_clusters
+   (bad_samples = the check record in which exactly that test fails) *)
 Theorem C16_asis_validate_first_refuted :
-  run (fit_base ["W_"; "b_"] bad_affinity) [] = (false, ["optimiser_"; "b_"; "W_"; "n_features_in_"]) /\
-  run (fit_sparse ["W_"; "b_"] bad_params) [] = (false, ["groups_"; "n_features_in_"]) /\
-  run (fit_sparse ["W_"; "b_"] bad_samples) [] = (false, ["groups_"; "n_features_in_"]) /\
-  run (fit_kernelrim bad_params) [] = (false, ["training_kernel_"; "input_data_"]) /\
+  validate_first (fit_kernelrim all_ok) = false /\
   run (fit_kernelrim bad_samples) [] = (false, ["training_kernel_"; "input_data_"]).
 Proof. exact fit_asis_leaves_attributes. Qed.
 
-(* cross-parameter rules and the shape of acceptable training data *)
+(* cross-parameter rules, the shape of acceptable training data and of a precomputed affinity *)
 Theorem C16_cross_rules :
   (forall leaf split, kauri_cross_ok leaf split = true <-> (2 * leaf <= split)%Z) /\
-  (forall m d, douglas_mask_ok m d = true <-> (m = None \/ m = Some d)) /\
+  (forall m d, douglas_mask_ok m d = true <-> (m = None \/ exists l, m = Some l /\ List.length l = d /\ In true l)) /\
   (forall ndim n d numeric finite m, data_ok ndim n d numeric finite m = true <->
-     (ndim = 2 /\ numeric = true /\ finite = true /\ 1 <= d /\ 1 <= n /\ m <= n)%nat).
-Proof. exact (conj kauri_cross_spec (conj douglas_mask_spec data_ok_spec)). Qed.
+     (ndim = 2 /\ numeric = true /\ finite = true /\ 1 <= d /\ 1 <= n /\ m <= n)%nat) /\
+  (forall ndim rows cols n numeric finite, precomputed_ok ndim rows cols n numeric finite = true <->
+     (ndim = 2 /\ numeric = true /\ finite = true /\ rows = cols /\ rows = n)).
+Proof. exact (conj kauri_cross_spec (conj douglas_mask_spec (conj data_ok_spec precomputed_ok_spec))). Qed.
 
-(* non-vacuity: the tables are populated (233 entries, 212 of them equal to the documentation for all values, when written),
+(* non-vacuity: the tables are populated (233 entries, 214 of them equal to the documentation for all values, when written),
    a concrete entry with its boundary, and a concrete completed partition *)
 Example C16_nonvacuous :
   Nat.leb 200 n_agree = true /\ Nat.leb n_agree n_entries = true /\
@@ -85,13 +109,16 @@ Example C16_nonvacuous :
   effective_sat classes (Some [Interval TIntegral (Some (Fin (Qmake 2 1))) None CLeft]) (VInt 1) = false /\
   in_doc_domain classes "Kauri" "min_samples_split" (VInt 2) = true /\
   check_groups [[3; 1]%Z; [0]%Z] 5 = Some [[3; 1]%Z; [0]%Z; [2]%Z; [4]%Z] /\
-  check_groups [[0; 1]%Z; [1]%Z] 3 = None.
+  check_groups [[0; 1]%Z; [1]%Z] 3 = None /\
+  check_groups_entries [[GInt 0; GBool true]] 3 = None.
 Proof. vm_compute. repeat split; reflexivity. Qed.
 
 Print Assumptions C16_accepts_iff_documented.
 Print Assumptions C16_known_disagreements_refuted.
 Print Assumptions C16_check_groups_spec.
 Print Assumptions C16_rejected_leaves_unfitted.
-Print Assumptions C16_asis_rejection_partial.
+Print Assumptions C16_check_groups_integer_entries.
+Print Assumptions C16_asis_rejection.
+Print Assumptions C16_asis_kernelrim_partial.
 Print Assumptions C16_asis_validate_first_refuted.
 Print Assumptions C16_cross_rules.
